@@ -36,7 +36,7 @@ RULE = ('budget = 1-3 primary sources with independent layouts (column order, sk
         'Each budget runs fault-free (html and json) and once per (primary source, fault in absent / EACCES / EISDIR / EIO mid-read / invalid UTF-8).  '
         'distinct_nontrivial counts distinct configuration vectors (n sources x delimiters x headers x decimals x signs x rules kind x mode x views x '
         'supplemental x fault kind) whose report had at least one categorised and one Unknown transaction.')
-FAULTS = ['absent', 'EACCES', 'EISDIR', 'EIO', 'bad-utf8']
+FAULTS = ['absent', 'EACCES', 'EISDIR', 'EIO', 'bad-utf8', 'csv-error']
 NOTICE = re.compile(r"not found|error|cannot|can't|could not|couldn't|unreadable|failed|fail|unable|missing|skip|no such|invalid|denied|problem|warning", re.I)
 
 
@@ -59,6 +59,11 @@ def gen_case(rng, tier):
                 # strictly inside the file, so that the read really fails
                 f['after'] = rng.randint(0, max(0, len(files[b['base'] + s['file']]) // 2))
             if k == 'bad-utf8':
+                f['at'] = rng.random()
+            if k == 'csv-error':
+                # content the csv module itself refuses (a field beyond its size limit): not an OSError, not a ValueError
+                if s['layout']['delimiter'] == 'regex':
+                    continue
                 f['at'] = rng.random()
             faults.append(f)
     if len(prim) > 1 and rng.random() < 0.3:
@@ -179,6 +184,13 @@ def apply_fault(root, f, snap):
         cut = int(len(data) * f['at'])
         with open(p, 'wb') as fh:
             fh.write(data[:cut] + b'\xff\xfe\xfa' + data[cut:])
+    elif f['kind'] == 'csv-error':
+        p = os.path.join(root, f['file'])
+        data = snap[f['file']]
+        cut = int(len(data) * f['at'])
+        nl = data.rfind(b'\n', 0, cut) + 1            # at a record boundary (file start when there is none before)
+        with open(p, 'wb') as fh:
+            fh.write(data[:nl] + b'"' + b'x' * 140000 + b'\n' + data[nl:])
     return reads
 
 
